@@ -365,7 +365,7 @@ def check_property(pid: str, spec: dict, tier: str, seed: int) -> int:
     results = run_pool(fids, nproc)
     # `unknown` is never a verdict; under load a query that normally takes milliseconds can run out of its budget. Functions with
     # an open obligation (or no verdict at all) get one more run, alone on the machine, with larger budgets, before anything is reported.
-    again = [r_["fid"] for r_ in results if (not r_.get("crash")) and (any(o_["status"] == "unknown" for o_ in r_["obls"]) or (r_.get("error") and "no verdict within" in str(r_["error"])))]
+    again = [r_["fid"] for r_ in results if (not r_.get("crash")) and (any(o_["status"] == "unknown" or (o_["status"] == "refuted" and o_.get("weakened")) for o_ in r_["obls"]) or (r_.get("error") and "no verdict within" in str(r_["error"])))]
     if again:
         global RELAXED
         RELAXED = True
